@@ -51,13 +51,14 @@ def specialize_source(source, specialize_for, search_in_folders=[]):
                     + "{ //autovectorized\n"
                 )
             elif specialize_for == "opencl":
-                new_lines.append(f"int {varname}; //autovectorized\n")
+                # the block opens a scope, as the for loop does on cpu
+                new_lines.append(f"{{int {varname}; //autovectorized\n")
                 new_lines.append(
                     f"{varname}=get_global_id(0); //autovectorized\n"
                 )
 
             elif specialize_for == "cuda":
-                new_lines.append(f"int {varname}; //autovectorized\n")
+                new_lines.append(f"{{int {varname}; //autovectorized\n")
                 new_lines.append(
                     f"{varname}=blockDim.x * blockIdx.x + threadIdx.x;"
                     "//autovectorized\n"
@@ -67,9 +68,9 @@ def specialize_source(source, specialize_for, search_in_folders=[]):
             if specialize_for.startswith("cpu"):
                 new_lines.append("}//end autovectorized\n")
             elif specialize_for == "opencl":
-                new_lines.append("//end autovectorized\n")
-            elif specialize_for == "cuda":
                 new_lines.append("}//end autovectorized\n")
+            elif specialize_for == "cuda":
+                new_lines.append("}}//end autovectorized\n")
 
             inside_vect_block = False
         else:
